@@ -2,6 +2,7 @@
 from lib import pipeline
 
 LEVEL = "proof"
+RELEASE_TOO = True
 MODEL_FILES = ["Model/CsrM.v", "Model/AdjListM.v"]
 THEOREMS = []  # filled below from the Props file contents expected
 STREAMS = [("C05csr", 500, 20000), ("C05list", 1200, 60000)]
